@@ -258,12 +258,36 @@ func ruleX8(p *Program, r *Reporter) {
 					continue
 				}
 				h := loopHeaderOf(b)
+				chk := b // the block that stands for the check inside the loop
+				lg := g  // the function holding the loop
+				if h == nil && g != fn && g.Parent() == nil {
+					// the per-row body lives in a helper: the loop is at its call site, and
+					// inside the helper no return can be reached without the check
+					fcg := newFlowCtx(g)
+					inner := false
+					for _, rb := range g.Blocks {
+						if _, isRet := rb.Instrs[len(rb.Instrs)-1].(*ssa.Return); isRet && rb != b && fcg.reachAvoid2(g.Blocks[0], rb, b) && g.Blocks[0] != b {
+							inner = true
+						}
+					}
+					for _, cs := range p.CallSitesOf(g) {
+						if hh := loopHeaderOf(cs.instr.Block()); hh != nil && !inner {
+							h, chk, lg = hh, cs.instr.Block(), cs.caller
+						}
+					}
+					if inner {
+						n++
+						r.Ob(id, funcName(g), "IndexExists on every transaction row", c.Pos(), false, true, "the per-row helper can return without calling IndexExists: some rows of the transaction cache skip the index check")
+						continue
+					}
+				}
 				if h == nil {
 					continue
 				}
 				n++
 				// from the loop body entry, the next iteration cannot be reached without the check
-				fc := newFlowCtx(g)
+				fc := newFlowCtx(lg)
+				b := chk
 				skipped := false
 				for _, s := range h.Succs {
 					if !inLoopOf(h, s) || s == h {
